@@ -433,6 +433,7 @@ var _ *openfgav1.Userset
 //@ func (*WeightedAuthorizationModelGraph).calculateNodeWeightAndFixDependencies
 //@   props C04 C05 C11
 //@   closed_alloc
+//@   per_return_posts
 //@   requires wg != nil && wg.nodes[nodeID] != nil && wfEdges(wg.edges[nodeID]) && tupleCycleDependencies != nil
 //@   requires wfDeps(wg, tupleCycleDependencies[nodeID]) && sepWildcards() && sepDeps(tupleCycleDependencies)
 //@   requires forall e *WeightedAuthorizationModelEdge :: allocated(e) ==> weightsInRange(e.weights)
@@ -791,6 +792,7 @@ var _ *openfgav1.Userset
 //@ func (*WeightedAuthorizationModelGraph).calculateNodeWeight
 //@   props C05 C08 C04 C11 C06
 //@   closed_alloc
+//@   per_return_posts
 //@   requires wg != nil && wg.nodes[nodeID] != nil && visited != nil && tupleCycleDependencies != nil && wg.edges != tupleCycleDependencies
 //@   requires path: wfPath(ancestorPath)
 //@   requires path_sep: pathSep(wg, tupleCycleDependencies, ancestorPath)
